@@ -952,10 +952,11 @@ def gen_direct(rng, tier):
 # --------------------------------------------------------------------------
 def _drive(ctx, cases, est):
     budget = 38.0 if ctx.tier == "quick" else 420.0
-    t0 = time.time()
+    t0, c0 = time.time(), time.process_time()
     seen = {}
     for case in cases:
-        if time.time() - t0 > budget:
+        # the budget is CPU time (case counts stay comparable on a loaded machine), with a wall-clock guard
+        if time.process_time() - c0 > budget or time.time() - t0 > 4 * budget:
             ctx.notes.append("time budget reached after %d cases" % ctx.evaluations)
             break
         try:
